@@ -135,7 +135,7 @@ public:
      */
    void WriteBytes(const uint8 * optBytes, uint32 numBytes)
    {
-      if (optBytes) memcpy(_writeTo, optBytes, numBytes);
+      if ((optBytes)&&(numBytes > 0)) memcpy(_writeTo, optBytes, numBytes);  // (with zero bytes to write, _writeTo may legitimately be NULL)
       Advance(numBytes);
    }
 
